@@ -68,6 +68,12 @@ Theorem C12_deregister_takes_effect : forall (reg : list (Z * reg_entry_x)) d,
   forall amt, transfer_gate (remove_token d reg) d amt = false.
 Proof. intros. split; [apply lookup_remove_same|split; [intros; apply lookup_remove_other; assumption|intros; apply gate_after_deregister]]. Qed.
 Print Assumptions C12_deregister_takes_effect.
+(* MsgSetRegistry: the list of the message - of any length, the empty one included - is what every later lookup sees *)
+Theorem C12_set_registry_takes_effect : forall (new old : list (Z * reg_entry_x)),
+  (forall d, lookup d (set_registry new old) = lookup d new) /\ (forall d amt, transfer_gate (set_registry new old) d amt = transfer_gate new d amt) /\
+  (forall d amt, lookup d new = None -> transfer_gate (set_registry new old) d amt = false).
+Proof. exact set_registry_takes_effect. Qed.
+Print Assumptions C12_set_registry_takes_effect.
 Example C12_edit_example :
   let reg := [(1, mkRE 7 false); (0, mkRE 7 false); (1, mkRE 3 false)] in
   transfer_gate reg 1 5 = true /\ transfer_gate (remove_token 1 reg) 1 5 = false /\
